@@ -134,6 +134,8 @@ type model struct {
 	pexTold     map[netip.AddrPort]bool
 	labels      map[string]bool
 	nreq        int
+	exitAccounted bool
+	lastQueue     int
 	stale       bool // the messages being checked were written while the remote was not reading
 }
 
@@ -416,6 +418,42 @@ func run(c caseSpec) (fail string, m *model, hist []string) {
 				m.commanded[m.chunkOf(e.Index, e.Begin)]--
 			}
 		}
+		// conservation (C09 at the level of one peer): the harness plays the
+		// torrent, so "in flight" is what it commanded and has not been told
+		// is dropped or delivered; at quiescence that must be exactly what the
+		// peer still holds in its queue or has sent out
+		if a.Alive() {
+			q, r := peer.VerifRequests(a.P)
+			held := map[uint32]int{}
+			for _, c := range append(q, r...) {
+				held[c]++
+			}
+			for c, n := range m.commanded {
+				if n != held[c] {
+					return fmt.Sprintf("block %d: the scheduler counts %d request(s) in flight at this peer, the peer holds %d (queued %v, sent %v): the block stays busy for ever or is released twice", c, n, held[c], q, r) + describe()
+				}
+			}
+			for c, n := range held {
+				if m.commanded[c] != n {
+					return fmt.Sprintf("block %d: the peer holds %d request(s) the scheduler does not count", c, n) + describe()
+				}
+			}
+			m.lastQueue = len(q)
+			if len(q) > 0 {
+				m.labels["local-queue-nonempty"] = true
+				if !m.unchoked && c.caps.Fast {
+					m.labels["fast-choked-with-local-queue"] = true
+				}
+			}
+		} else if !m.exitAccounted {
+			// after the peer has gone every block must have been dropped
+			m.exitAccounted = true
+			for c, n := range m.commanded {
+				if n != 0 {
+					return fmt.Sprintf("the peer has exited, block %d is still counted %d time(s) in flight", c, n) + describe()
+				}
+			}
+		}
 		return ""
 	}
 	for _, s := range c.steps {
@@ -492,6 +530,12 @@ func run(c caseSpec) (fail string, m *model, hist []string) {
 			delete(pexWant, p.Addr)
 			a.Cmd(peer.PeerPex{Peers: []pex.Peer{p}, Add: false})
 		case "r.choke":
+			if m.lastQueue > 0 && c.caps.Fast {
+				m.labels["fast-choke-with-local-queue"] = true
+			}
+			if m.lastQueue > 0 && !c.caps.Fast {
+				m.labels["nonfast-choke-with-local-queue"] = true
+			}
 			m.unchoked = false
 			if len(m.outstanding) > 0 {
 				m.labels["choke-with-outstanding"] = true
